@@ -86,16 +86,15 @@ From A1 Require Import Rt.Uper Rt.Oer Rt.Ext Rt.ExtFormat Rt.ExtProofs.
 
 Theorem C03_ext_uper_older_sender : forall std tg root known more rvs avs bits rest,
   wf_ety_uper (ESeq tg root known) = true -> wt_ety_uper std (ESeq tg root known) (EVSeq rvs avs) ->
-  ext_count_ok std (ESeq tg root known) ->
   ext_uper std (ESeq tg root known) (EVSeq rvs avs) = Some bits ->
   ext_uper_dec std (ESeq tg root (known ++ more)) (bits ++ rest) = Some (EVSeq rvs (avs ++ absent_all more), rest).
 Proof. exact ext_uper_seq_bwd. Qed.
 Print Assumptions C03_ext_uper_older_sender.
 
-Theorem C03_ext_oer_older_sender : forall std tg root known more rvs avs bs rest,
+Theorem C03_ext_oer_older_sender : forall tg root known more rvs avs bs rest,
   wf_ety_oer (ESeq tg root known) = true -> wt_ety_oer (ESeq tg root known) (EVSeq rvs avs) ->
   ext_oer (ESeq tg root known) (EVSeq rvs avs) = Some bs ->
-  ext_oer_dec std (ESeq tg root (known ++ more)) (bs ++ rest) = Some (EVSeq rvs (avs ++ absent_all more), rest).
+  ext_oer_dec (ESeq tg root (known ++ more)) (bs ++ rest) = Some (EVSeq rvs (avs ++ absent_all more), rest).
 Proof. exact ext_oer_seq_bwd. Qed.
 Print Assumptions C03_ext_oer_older_sender.
 
@@ -106,8 +105,8 @@ Theorem C03_ext_ber_older_sender : forall tg root known more rvs avs bs rest,
 Proof. exact ext_ber_seq_bwd. Qed.
 Print Assumptions C03_ext_ber_older_sender.
 
-(* a NEWER sender: the additions the reader does not know are skipped (BER always; UPER / OER under the standard
-   reading; for the C see C01_ext_uper_forward_compat / C01_ext_oer_forward_compat and their refutations) *)
+(* a NEWER sender: the additions the reader does not know are skipped, whatever their size, in all three
+   syntaxes (UPER / OER: since the repairs of uper_open_type_skip / oer_open_type_skip) *)
 Theorem C03_ext_ber_newer_sender : forall tg root adds rvs avs bs rest k,
   wf_ety_der (ESeq tg root adds) = true -> wt_ety_der (ESeq tg root adds) (EVSeq rvs avs) = true ->
   ext_der (ESeq tg root adds) (EVSeq rvs avs) = Some bs -> zlen bs <= rssize_max ->
@@ -115,34 +114,19 @@ Theorem C03_ext_ber_newer_sender : forall tg root adds rvs avs bs rest k,
 Proof. exact ext_ber_seq_fwd. Qed.
 Print Assumptions C03_ext_ber_newer_sender.
 
-Theorem C03_ext_uper_newer_sender_std : forall tg root adds rvs avs bits rest k,
-  wf_ety_uper (ESeq tg root adds) = true -> wt_ety_uper true (ESeq tg root adds) (EVSeq rvs avs) ->
-  ext_uper true (ESeq tg root adds) (EVSeq rvs avs) = Some bits ->
-  ext_uper_dec true (truncate_ty k (ESeq tg root adds)) (bits ++ rest) = Some (truncate_val k (EVSeq rvs avs), rest).
-Proof. exact ext_uper_forward_compat_std. Qed.
-Print Assumptions C03_ext_uper_newer_sender_std.
+Theorem C03_ext_uper_newer_sender : forall std tg root adds rvs avs bits rest k,
+  wf_ety_uper (ESeq tg root adds) = true -> wt_ety_uper std (ESeq tg root adds) (EVSeq rvs avs) ->
+  ext_uper std (ESeq tg root adds) (EVSeq rvs avs) = Some bits ->
+  ext_uper_dec std (truncate_ty k (ESeq tg root adds)) (bits ++ rest) = Some (truncate_val k (EVSeq rvs avs), rest).
+Proof. exact ext_uper_forward_compat. Qed.
+Print Assumptions C03_ext_uper_newer_sender.
 
-Theorem C03_ext_oer_newer_sender_std : forall tg root adds rvs avs bs rest k,
+Theorem C03_ext_oer_newer_sender : forall tg root adds rvs avs bs rest k,
   wf_ety_oer (ESeq tg root adds) = true -> wt_ety_oer (ESeq tg root adds) (EVSeq rvs avs) ->
   ext_oer (ESeq tg root adds) (EVSeq rvs avs) = Some bs ->
-  ext_oer_dec true (truncate_ty k (ESeq tg root adds)) (bs ++ rest) = Some (truncate_val k (EVSeq rvs avs), rest).
-Proof. exact ext_oer_forward_compat_std. Qed.
-Print Assumptions C03_ext_oer_newer_sender_std.
-
-Theorem C03_ext_uper_newer_sender_c_refuted :
-  exists t v k bits, wf_ety_uper t = true /\ wt_ety_uper false t v /\ ext_uper false t v = Some bits /\
-    ext_uper true t v = Some bits /\
-    ext_uper_dec false (truncate_ty k t) bits = None /\
-    ext_uper_dec true (truncate_ty k t) bits = Some (truncate_val k v, []).
-Proof. exact ext_uper_forward_compat_c_refuted. Qed.
-Print Assumptions C03_ext_uper_newer_sender_c_refuted.
-
-Theorem C03_ext_oer_newer_sender_c_refuted :
-  exists t v k bs, wf_ety_oer t = true /\ wt_ety_oer t v /\ ext_oer t v = Some bs /\
-    ext_oer_dec false (truncate_ty k t) bs <> Some (truncate_val k v, []) /\
-    ext_oer_dec true (truncate_ty k t) bs = Some (truncate_val k v, []).
-Proof. exact ext_oer_forward_compat_c_refuted. Qed.
-Print Assumptions C03_ext_oer_newer_sender_c_refuted.
+  ext_oer_dec (truncate_ty k (ESeq tg root adds)) (bs ++ rest) = Some (truncate_val k (EVSeq rvs avs), rest).
+Proof. exact ext_oer_forward_compat. Qed.
+Print Assumptions C03_ext_oer_newer_sender.
 
 
 (* ===================================================================== *)
@@ -268,15 +252,15 @@ Proof. exact oer_complete_decode. Qed.
 Print Assumptions C03_oer_complete.
 
 (* extensible SEQUENCE / CHOICE: the length of the extension presence bitmap and of every open type as well *)
-Theorem C03_ext_oer_complete_stream : forall std t oc v bs rest,
+Theorem C03_ext_oer_complete_stream : forall t oc v bs rest,
   wf_ety_oer t = true -> wt_ety_oer_var t v -> ext_oer_var t oc v = Some bs ->
-  ext_oer_cdec std t (bs ++ rest) = Some (v, rest).
+  ext_oer_cdec t (bs ++ rest) = Some (v, rest).
 Proof. exact ext_oer_complete. Qed.
 Print Assumptions C03_ext_oer_complete_stream.
 
-Theorem C03_ext_oer_complete : forall std t oc v bs,
+Theorem C03_ext_oer_complete : forall t oc v bs,
   wf_ety_oer t = true -> wt_ety_oer_var t v -> ext_oer_var t oc v = Some bs ->
-  ext_oer_cdecode std t bs = Some (v, zlen bs).
+  ext_oer_cdecode t bs = Some (v, zlen bs).
 Proof. exact ext_oer_complete_decode. Qed.
 Print Assumptions C03_ext_oer_complete.
 
